@@ -36,6 +36,7 @@ ASSUMPTIONS = [
     "power through a transformer = 120*sqrt(3) V x sum of EVSE currents behind it (unity power factor, V_LL the exact partner of 120 V L-N; with a literal 208 V the balanced boundary sits 0.074% above the rating by rounding of the nominal alone)",
     "ratings: Caltech pods 80 A; JPL sub-panels 100 A, floor panels 225 A per line; transformers Caltech 150 kW, JPL 45/150 kW, Office 50 kW (x capacity factor)",
     "an accepted schedule may exceed a limit by the network's own tolerance max(1e-5 A, 1e-7 x limit); the oracle allows 2e-7 relative + 2e-5 A",
+    "variants: each site also after a JSON round trip, after having been asked with other tolerances, and (Caltech) through the deprecated CaltechACN entry point",
     "the guarantee is for the enumerated lattice and boundary points; linearity of power and convexity of the feasible set are why boundary points along directions are the extremal witnesses",
 ]
 CHUNK = 1
@@ -91,6 +92,28 @@ OFFICE = {
 SITES = {"caltech": CALTECH, "jpl": JPL, "office": OFFICE}
 
 
+def build_variant(site, basic, factor, voltage=208, variant=None):
+    """variant: None | "reload" (the network went through to_json/from_json) | "asked-before" (the same object was
+    asked with other tolerances before) | "wrapper" (built through the deprecated CaltechACN entry point)"""
+    import contextlib, io
+
+    if variant == "wrapper":
+        with warnings.catch_warnings(), contextlib.redirect_stdout(io.StringIO()):
+            warnings.simplefilter("ignore")
+            return sites.CaltechACN(basic_evse=basic, transformer_cap=150 * factor, voltage=voltage)
+    net = build(site, basic, factor, voltage)
+    if variant == "reload":
+        with warnings.catch_warnings():
+            warnings.simplefilter("ignore")
+            net = type(net).from_json(net.to_json())
+    elif variant == "asked-before":
+        x = np.full((len(net.station_ids), 1), 32.0)
+        net.is_feasible(x, relative_tolerance=0.2)
+        net.is_feasible(x * 0.5, violation_tolerance=30.0)
+        net.is_feasible(x, linear=True, violation_tolerance=30.0, relative_tolerance=0.2)
+    return net
+
+
 def build(site, basic, factor, voltage=208):
     # `voltage` is the EVSE voltage argument of the site factories; their docstrings say it "does not affect the
     # current rating of the transformer, which is based on nominal voltages in the network"
@@ -121,6 +144,15 @@ def space(tier, seed):
                     nch = 1 if nact <= 3 else (4 if nact <= 6 else 16)
                     for ch in range(nch):
                         items.append({"site": site, "basic": basic, "factor": f, "tr": tr, "tier": tier, "chunk": [ch, nch], "voltage": volt})
+    # the same sites reached differently: re-loaded from JSON, asked with other tolerances before, deprecated entry point
+    for site in SITES:
+        spec = SITES[site]
+        for variant, basic, f in [("reload", False, 1), ("reload", True, 0.5), ("asked-before", True, 1), ("asked-before", False, 2)] + ([("wrapper", True, 0.5), ("wrapper", False, 0.75)] if site == "caltech" else []):
+            for tr in sorted(spec["transformers"]):
+                nact = sum(1 for c in spec["classes"].values() if c[1] == tr)
+                nch = 1 if nact <= 3 else (4 if nact <= 6 else 16)
+                for ch in range(nch):
+                    items.append({"site": site, "basic": basic, "factor": f, "tr": tr, "tier": tier, "chunk": [ch, nch], "voltage": 208, "variant": variant})
     items.append({"site": "simple", "basic": True, "factor": 1, "tr": "agg", "tier": tier})
     return items
 
@@ -231,7 +263,7 @@ def execute(item, only=None):
         return execute_simple(item, rep, viol, stats)
     spec = SITES[item["site"]]
     b = bounds(item["tier"], 0)
-    net = build(item["site"], item["basic"], item["factor"], item.get("voltage", 208))
+    net = build_variant(item["site"], item["basic"], item["factor"], item.get("voltage", 208), item.get("variant"))
     ids = list(net.station_ids)
     idx = {s: i for i, s in enumerate(ids)}
     if (item.get("chunk") or [0, 1])[0] != 0 and only is None:
@@ -349,7 +381,7 @@ def run(item):
     for o in st["out"]:
         acc.outcome(o)
     for n in st["nt"]:
-        acc.nt((item["site"], item["basic"], item["factor"], item.get("voltage", 208), n))
+        acc.nt((item["site"], item["basic"], item["factor"], item.get("voltage", 208), item.get("variant"), n))
     for sig, what, o, e, ctx in viol:
         acc.violation(sig, what, dict(item, only=ctx), o, e)
     acc.sample({k: item[k] for k in ("site", "basic", "factor", "tr")}, cap=3)
@@ -357,7 +389,7 @@ def run(item):
 
 
 def replay(scn):
-    item = {k: scn[k] for k in ("site", "basic", "factor", "tr", "tier")}
+    item = {k: scn[k] for k in ("site", "basic", "factor", "tr", "tier", "variant") if k in scn}
     item["chunk"] = [0, 1]
     item["voltage"] = scn.get("voltage", 208)
     viol, _ = execute(item, only=scn.get("only"))
